@@ -72,7 +72,7 @@ func TestBoundedC03Access(t *testing.T) {
 							if priv == 4 {
 								iface = NewInterface(nil)
 							}
-							leaked := false   // the restricted interface got hold of the record's content
+							leaked := false // the restricted interface got hold of the record's content
 							var opErr error
 							switch op {
 							case "get":
